@@ -245,7 +245,8 @@ pub fn run_program(prog: &Value, out: &mut dyn Write) {
                  else if setup["hidden"].as_bool().unwrap_or(false) { ProgressBar::with_draw_target(Some(1000), ProgressDrawTarget::hidden()) }
                  else { ProgressBar::with_draw_target(Some(10), ProgressDrawTarget::term_like(Box::new(spy.clone()))) };
         if let Some(p0) = setup["pos0"].as_u64() { pb.set_position(p0); }
-        pb.set_style(ProgressStyle::with_template("{spinner}{msg}{pos}").unwrap().tick_strings(&["0", "1", "2", "3", "4", "5", "6", "7", "8", "9"]));
+        pb.set_style(ProgressStyle::with_template("{spinner}{msg}:{pos}").unwrap().tick_strings(&["0", "1", "2", "3", "4", "5", "6", "7", "8", "9"]));
+        if setup["named"].as_bool().unwrap_or(false) { pb.set_message(((b'a' + (b as u8) - 1) as char).to_string()); }
         bars.insert(b, pb);
     }
     // the main (setup) thread is logical thread 50: it performs the initial enable_steady_tick calls under the scheduler
@@ -367,6 +368,7 @@ pub fn run_program(prog: &Value, out: &mut dyn Write) {
     rec.insert("deviations".into(), json!(deviations));
     rec.insert("nthreads".into(), json!(nthreads));
     rec.insert("final_pos".into(), json!(final_pos));
+    rec.insert("sumcheck".into(), json!(prog["atomics"].as_bool().unwrap_or(false)));
     rec.insert("pos0".into(), json!(prog["setup"]["pos0"].as_i64().unwrap_or(0)));
     // spinner frames drawn so far (template "{spinner}{msg}{pos}", tick strings "0".."9") and ticker ticks
     let (calls, _) = spy.take();
@@ -379,6 +381,23 @@ pub fn run_program(prog: &Value, out: &mut dyn Write) {
             if prev_is_move && (48..58).contains(&g) { spinners.push(g - 48); }
         } } }
     }
+    // painted frames (between flushes): for every bar line "<spinner><letter>:<pos>" the pair [bar, pos]
+    let mut frames: Vec<Vec<[i64; 2]>> = vec![];
+    let mut cur: Vec<[i64; 2]> = vec![];
+    for c in cs.iter() {
+        if c["k"] == "flush" { frames.push(std::mem::take(&mut cur)); continue; }
+        if c["k"] == "str" || c["k"] == "line" {
+            let a: Vec<i64> = c["c"].as_array().map(|a| a.iter().filter_map(|x| x.as_i64()).collect()).unwrap_or_default();
+            if a.len() >= 4 && (48..58).contains(&a[0]) && (97..123).contains(&a[1]) && a[2] == 58 {
+                let mut v: i64 = 0; let mut ok = false;
+                for g in a[3..].iter() { if (48..58).contains(g) { v = v * 10 + (g - 48); ok = true; } else { break; } }
+                if ok { cur.push([a[1] - 96, v]); }
+            }
+        }
+    }
+    rec.insert("frames".into(), json!(frames));
+    rec.insert("framecheck".into(), json!(prog["framecheck"].as_bool().unwrap_or(false)));
+    rec.insert("nbars".into(), json!(nb));
     let tticks = core.log.iter().filter(|s| s["k"] == "Mark" && s["o"] == "ticker_tick").count();
     rec.insert("spinners".into(), json!(spinners));
     rec.insert("tticks".into(), json!(tticks));
